@@ -220,6 +220,28 @@ def addMissingLine (c : SplitCfg α) (ch : Chain α) : List (Elem α) :=
 
 def addMissing (c : SplitCfg α) (ch : Chain α) : Chain α := { ch with line := addMissingLine c ch }
 
+
+/-! ### the graph view of a set of chains -/
+
+/-- consecutive pairs of a node sequence -/
+def pathEdges : List String → List (String × String)
+  | a :: b :: rest => (a, b) :: pathEdges (b :: rest)
+  | _ => []
+
+/-- the node sequence of a chain: source endpoint, the line elements, destination endpoint -/
+def chainNodes {α : Type} (ch : Chain α) : List String := ch.src :: (ch.line.map Elem.uid ++ [ch.dst])
+
+def chainEdges {α : Type} (ch : Chain α) : List (String × String) := pathEdges (chainNodes ch)
+
+/-- the directed graph (edge list over uids) of a topology given as a set of chains; endpoints are shared between chains -/
+def toGraph {α : Type} (chs : List (Chain α)) : List (String × String) := chs.flatMap chainEdges
+
+def inDeg (g : List (String × String)) (u : String) : Nat := g.countP (fun e => e.2 == u)
+def outDeg (g : List (String × String)) (u : String) : Nat := g.countP (fun e => e.1 == u)
+
+/-- which endpoint pairs are joined by a chain -/
+def endpointPairs {α : Type} (chs : List (Chain α)) : List (String × String) := chs.map (fun ch => (ch.src, ch.dst))
+
 /-! ### add_connector_loss -/
 
 def addConn (dIn dOut eol : α) : List (Elem α) → List (Elem α)
@@ -298,6 +320,10 @@ def addPadding (padding : α) (l : List (Elem α)) : List (Elem α) := ((runs l)
 /-- `add_missing_fiber_attributes` -/
 def addAttributes (dIn dOut eol padding : α) (l : List (Elem α)) : List (Elem α) :=
   addPadding padding (addConn dIn dOut eol l)
+
+/-- one chain after `add_missing_elements_in_network` + `add_missing_fiber_attributes` -/
+def completeChain (c : SplitCfg α) (dIn dOut eol padding : α) (ch : Chain α) : Chain α :=
+  { ch with line := addAttributes dIn dOut eol padding (addMissingLine c ch) }
 
 end
 end Gnpy.Chain
